@@ -77,8 +77,11 @@ PLAN = {
             {"monitor": "c05_bg", "variant": "rel", "shards": 16},
             {"monitor": "c05_probe", "variant": "rel", "shards": 16},
             {"monitor": "c05_probe", "variant": "dbg", "shards": 8},
+            {"monitor": "c05_mtbdd_terminals", "variant": "rel", "shards": 8},
+            {"monitor": "c05_mtbdd_terminals", "variant": "dbg", "shards": 4},
+            {"monitor": "c10_dd", "variant": "rel", "shards": 16, "tiers": ("thorough",)},  # MTBDD: exact gc of nodes and terminals
         ],
-        "require_counters": {"all": ["background_gcs_observed", "probes", "gcs_that_freed", "failed_operations_oom"]},
+        "require_counters": {"all": ["background_gcs_observed", "probes", "gcs_that_freed", "failed_operations_oom", "terminal_iterations"]},
     },
     "C06": {
         "level": "exploration",
@@ -92,6 +95,10 @@ PLAN = {
         "jobs": [
             {"monitor": "c06_diff", "variant": "rel", "shards": 16},
             {"monitor": "c06_diff", "variant": "dbg", "shards": 8},
+            # operator / operand-order key mix-ups for the other kinds: different operators (and swapped operands) on the
+            # same operands back-to-back on one manager with caches of 1..4096 entries
+            {"monitor": "c10_dd", "variant": "rel", "shards": 16},
+            {"monitor": "c11_exh", "variant": "rel", "shards": 16},
         ],
         "require_counters": {"all": ["replays", "gcs_that_freed"]},
     },
@@ -112,6 +119,8 @@ PLAN = {
             {"monitor": "c14_sweep", "variant": "rel", "shards": 16},
             {"monitor": "c14_sweep", "variant": "dbg", "shards": 16},
             {"monitor": "c14_aborts", "variant": "rel", "shards": 2},
+            # MTBDD: terminal and inner capacities of 3..6 entries (OutOfMemory returned, store usable again after gc)
+            {"monitor": "c10_dd", "variant": "rel", "shards": 16},
         ],
         "require_counters": {"all": ["capacities_with_oom", "retries_succeeded"]},
     },
@@ -266,6 +275,9 @@ PLAN = {
             {"monitor": "c07_sched_rand", "variant": "rel", "shards": 16},
             {"monitor": "c07_sched_rand", "variant": "dbg", "shards": 8},
             {"monitor": "c07_sched_dfs", "variant": "rel", "shards": 12},
+            {"monitor": "c07_mtbdd", "variant": "rel", "shards": 16},
+            {"monitor": "c07_mtbdd", "variant": "dbg", "shards": 8},
+            {"monitor": "c07_mtbdd", "variant": "tsan", "shards": 8, "nondeterministic": True},
             {"monitor": "c07_stress", "variant": "rel", "shards": 16, "parallel": 4, "nondeterministic": True},
             {"monitor": "c07_stress", "variant": "dbg", "shards": 8, "parallel": 4, "nondeterministic": True},
             {"monitor": "c07_stress", "variant": "tsan", "shards": 8, "parallel": 4, "nondeterministic": True},
@@ -273,7 +285,7 @@ PLAN = {
             {"monitor": "c07_tiny", "variant": "tsan", "shards": 16, "nondeterministic": True},
             {"monitor": "c07_tiny", "variant": "miri", "shards": {"quick": 16, "thorough": 96}, "timeout": {"quick": 1500, "thorough": 3000}},
         ],
-        "require_counters": {"all": ["schedules", "context_switches", "scenarios_enumerated_completely", "stress_rounds", "tiny_scenarios", "gcs_that_freed"]},
+        "require_counters": {"all": ["schedules", "context_switches", "scenarios_enumerated_completely", "stress_rounds", "tiny_scenarios", "gcs_that_freed", "mtbdd_concurrent_scenarios"]},
     },
     "C16": {
         "level": "exploration",
@@ -383,9 +395,12 @@ PLAN = {
         "jobs": [
             {"monitor": "c08_exh", "variant": "rel", "shards": 32},
             {"monitor": "c08_rand", "variant": "rel", "shards": 16},
+            {"monitor": "c08_large", "variant": "rel", "shards": {"quick": 4, "thorough": 16}, "parallel": 4},
+            {"monitor": "c08_large", "variant": "dbg", "shards": {"quick": 2, "thorough": 8}, "parallel": 4},
+            {"monitor": "c08_large", "variant": "tsan", "shards": 2, "parallel": 2, "tiers": ("thorough",)},
             {"monitor": "c08_rand", "variant": "dbg", "shards": 16},
         ],
-        "require_counters": {"all": ["reorder_cases", "gcs_that_freed"]},
+        "require_counters": {"all": ["reorder_cases", "gcs_that_freed", "concurrent_sort_preconditions_met", "large_reorderings"]},
     },
     "C02": {
         "level": "exploration",
@@ -398,6 +413,10 @@ PLAN = {
                         "exhaustive only for 3 variables; larger n sampled from VERIF_SEED"],
         "jobs": [
             {"monitor": "c02_pairs", "variant": "rel", "shards": 36},
+            {"monitor": "c02_rand", "variant": "rel", "shards": 16},
+            {"monitor": "c02_rand", "variant": "dbg", "shards": 8},
+            {"monitor": "c02_pairs", "variant": "pointer", "shards": 36, "tiers": ("thorough",)},
+            {"monitor": "c02_rand", "variant": "pointer", "shards": 8},
         ],
     },
 }
